@@ -15,6 +15,10 @@ TRUSTED = [
     "correspondence harness: harness/props/c17.py (generators, exact float -> rational conversion, rate of each "
     "configured model per pixel), harness/drivers/c17.py (calls the real models / pyxel.run_mode; pooch.retrieve is "
     "pointed at a local PNG for usaf_illumination)",
+    "translator/c17_life.py: the scan of pyxel/ for the Detector family and for the callers of detector.empty, the "
+    "three-valued interpretation of the `empty` bodies for reset = True / False (which statements empty a bucket) and "
+    "of the readout loops for both modes; that no other code empties or fills the buckets between the models (the "
+    "resulting table is compared with real detector.empty calls on every detector type on every run)",
     "translator/c17.py: the scan for clock readers under pyxel/models, the symbolic evaluation of the integrating "
     "models' bodies (which helpers are pure, which attributes are step-independent: geometry / characteristics / "
     "environment) and its CLASSIFICATION table (which readers are excluded as random / relaxation / bookkeeping); the "
@@ -856,7 +860,7 @@ def exposure_items(ctx, r, n_pair, n_scale, n_single, dy, kinds_list=()):
     return items
 
 
-def matrix_items(r):
+def matrix_items(r, exhaustive=False):
     """On EVERY run: every detector type x both readout modes x both entry points (a 3-way split against the single
     readout in non-destructive mode, a scaled schedule in destructive mode), alternately on a clean detector and on
     one that holds data from earlier use; every route of establishing the schedule in both modes; and
@@ -905,6 +909,23 @@ def matrix_items(r):
         for arg in ("default", True, False):
             det = gen_det(r, small=True, kind=kind)
             items.append(dict(type="life", dy=True, payloads=[dict(kind="life", det=det, arg=arg)]))
+    if exhaustive:
+        # thorough tier: every route x detector type x readout mode x entry point (alternately a fresh / a reused detector)
+        for route in ROUTES:
+            for kind in KINDS:
+                for nd in (True, False):
+                    for entry in (None, "exposure_mode"):
+                        for dirty in ((None,) if (len(items) % 2) else (5.0,)):
+                            det, models = gen_pipeline(r, True, [r.choice(["ill_uniform", "load_charge", "dark_current"])], kind)
+                            s = gen_start(r, True)
+                            d, n = gen_increment(r, True), r.choice([2, 3])
+                            if route == "string":
+                                s = s if s + d != 0.0 else s + 0.25
+                                ts = [s + d * (i + 1) for i in range(n)]
+                            else:
+                                s, ts = gen_times(r, True, n=n, start=s)
+                            items.append(dict(type="exp", dy=True,
+                                              payloads=[exposure_payload(det, models, s, ts, nd, entry, route, dirty)]))
     return items
 
 
@@ -1340,6 +1361,9 @@ def run(ctx: Ctx):
         "exact stream: dyadic times, levels, file values, time scales (powers of two), QE; equality is exact. "
         "Non-dyadic stream: relative tolerance 1e-9, reported separately in the distribution",
         "stripe_pattern only on even detector shapes (it returns a smaller array on odd shapes - outside this property)",
+        "detector types CCD, CMOS, MKID, APD (dark_current_rule07 only on CCD / CMOS: it refuses the others); the detector "
+        "object is fresh or holds data from earlier use; the schedule reaches the Readout object through its "
+        "constructor, its setters, replace(), a file or a range string",
     ]
     proof_ok = translator_leg(ctx)
 
@@ -1347,14 +1371,15 @@ def run(ctx: Ctx):
     q = ctx.quick
     items = corpus_items()
     ctx.cov["corpus_cases"] = len(items)
-    items += matrix_items(ctx.rng("matrix"))
+    items += matrix_items(ctx.rng("matrix"), exhaustive=not q)
     items += call_items(ctx, r, 2 if q else 12, True)
     items += call_items(ctx, ctx.rng("calls-nd"), 0 if q else 6, False)
     singles_and_full = [[k] for k in RATE_MODELS] + [list(RATE_MODELS)]
     subsets = singles_and_full if q else all_subsets()
     r.shuffle(subsets)
-    items += exposure_items(ctx, r, 24 if q else 240, 24 if q else 200, 16 if q else 160, True, subsets)
-    items += exposure_items(ctx, ctx.rng("exp-nd"), 8 if q else 50, 6 if q else 40, 6 if q else 40, False)
+    # (the matrix block above adds 16 pairs / 16 scaled pairs / 18 routed exposures to these on every run)
+    items += exposure_items(ctx, r, 20 if q else 240, 20 if q else 200, 12 if q else 160, True, subsets)
+    items += exposure_items(ctx, ctx.rng("exp-nd"), 6 if q else 50, 5 if q else 40, 5 if q else 40, False)
     items += refused_items(r)
     items += sched_items(items)
     recs = evaluate(ctx, items)
@@ -1559,12 +1584,22 @@ META = dict(
         "(illumination, load_image, usaf_illumination, stripe_pattern, load_charge, dark_current, dark_current_rule07) the "
         "quantity added to the bucket is read symbolically for every option branch, and Coq proves over the regenerated "
         "table that every deterministic branch is (value at unit step)*time_step for all argument values, is additive "
-        "over any split of the step, and is a PhotonRate/ChargeRate op of the exposure model; (c) the Readout.__init__ "
-        "refusals read from the source accept exactly valid_schedule. That the helpers treated as step-independent are "
+        "over any split of the step, and is a PhotonRate/ChargeRate op of the exposure model; (c) the refusals of "
+        "Readout.__init__ and of the detector's ReadoutProperties.__init__ read from the source accept exactly "
+        "valid_schedule; (d) what simple_conversion / conversion_with_qe_map / simple_collection add to their sink is read "
+        "symbolically over the content of their source bucket, and Coq proves that every deterministic branch is the "
+        "Convert / Collect op of the model (a step-independent factor times the photons; the charge itself); (e) the "
+        "Detector family (every class, what each own `empty(reset)` empties for both values and what it passes to its "
+        "parent) and every function that calls detector.empty (the empties before the readout loop, the argument inside it "
+        "for both modes) are read from the source, and Coq proves that on every detector class, by every loop, from any "
+        "initial bucket content, the exposure is the modelled one - so the partition / proportionality theorems hold "
+        "for every detector type. That the helpers treated as step-independent are "
         "so, that the translated rows describe what the code does, and the exposure loop itself, are established by "
         "correspondence (= testing): each real model with every option variant is called with several time steps and "
         "judged inside Coq (K-free proportionality, closed-form rate, the translated row evaluated on the actual "
-        "arguments); real pyxel.run_mode exposures under several partitions of the same interval, and under scaled "
+        "arguments; conversions likewise; detector.empty(default/True/False) on every detector type against the translated "
+        "table); real pyxel.run_mode / exposure_mode exposures on every detector type (fresh or reused), the schedule given "
+        "through every route (the Readout's and the detector's start, times, steps, mode judged in Coq), under several partitions of the same interval, and under scaled "
         "destructive schedules, are judged inside Coq against the model trace, the closed forms, and each other."),
     level_note=(
         "Trusted: Coq kernel + vm_compute; the harness, driver and translator (its symbolic evaluator and classification "
